@@ -11,6 +11,31 @@ use std::path::{Path, PathBuf};
 
 use vh_ls::*;
 
+/// documents of `outside` live in a sibling directory of the workspace root (a library only once configured)
+fn lib_dir(root: &Path) -> PathBuf {
+    let name = format!("{}_lib", root.file_name().unwrap().to_string_lossy());
+    root.parent().unwrap().join(name)
+}
+
+fn doc_path(root: &Path, u: &str, outside: &[String]) -> PathBuf {
+    if outside.iter().any(|x| x == u) {
+        lib_dir(root).join(format!("{u}.lua"))
+    } else {
+        root.join(format!("{u}.lua"))
+    }
+}
+
+fn write_config(root: &Path, reindex: bool, lib: bool) {
+    let mut ws = serde_json::Map::new();
+    if reindex {
+        ws.insert("enableReindex".into(), json!(true));
+    }
+    if lib {
+        ws.insert("library".into(), json!([lib_dir(root).to_string_lossy()]));
+    }
+    std::fs::write(root.join(".emmyrc.json"), json!({"workspace": ws}).to_string() + "\n").unwrap();
+}
+
 fn text_of(id: &str) -> String {
     format!("local {id} = 1")
 }
@@ -39,13 +64,13 @@ fn id_of_diags(d: &Value) -> String {
     "?".into()
 }
 
-fn observe(s: &Session, root: &Path, uris: &[String]) -> Option<Value> {
+fn observe(s: &Session, root: &Path, uris: &[String], outside: &[String]) -> Option<Value> {
     let (_, _, open) = s.wm_state().ok()?;
     let mut o = BTreeMap::new();
     let mut v = BTreeMap::new();
     let mut p = BTreeMap::new();
     for u in uris {
-        let uri = uri_of(&root.join(format!("{u}.lua")));
+        let uri = uri_of(&doc_path(root.as_ref(), u.as_ref(), outside.as_ref()));
         o.insert(
             u.clone(),
             open.get(&uri.to_string())
@@ -92,26 +117,30 @@ fn main() {
         let sc: Value = serde_json::from_str(line).unwrap();
         let script = sc["script"].as_array().unwrap().clone();
         let reindex = sc["reindex"].as_bool().unwrap_or(false);
+        let lib = sc["lib"].as_bool().unwrap_or(false);
+        let outside: Vec<String> = sc["outside"]
+            .as_array()
+            .map(|v| v.iter().filter_map(|x| x.as_str().map(|s| s.to_string())).collect())
+            .unwrap_or_default();
         let mut uris: Vec<String> = sc["disk0"].as_object().unwrap().keys().cloned().collect();
         uris.sort();
         for k in 0..per {
             let root = base.join(format!("x{}", (n as u64 * per + k) % 4));
             let _ = std::fs::remove_dir_all(&root);
             std::fs::create_dir_all(&root).unwrap();
-            std::fs::write(
-                root.join(".emmyrc.json"),
-                if reindex { "{\"workspace\": {\"enableReindex\": true}}\n" } else { "{}\n" },
-            )
-            .unwrap();
+            let _ = std::fs::remove_dir_all(lib_dir(&root));
+            std::fs::create_dir_all(lib_dir(&root)).unwrap();
+            write_config(&root, reindex, false);
             for (u, t) in sc["disk0"].as_object().unwrap() {
                 if t != "absent" {
-                    std::fs::write(root.join(format!("{u}.lua")), text_of(t.as_str().unwrap())).unwrap();
+                    std::fs::write(doc_path(root.as_ref(), u.as_ref(), outside.as_ref()), text_of(t.as_str().unwrap())).unwrap();
                 }
             }
             let mut rng = Rng(seed.wrapping_mul(1_000_003) ^ (n as u64 * 7919 + k));
             let script2 = script.clone();
             let uris2 = uris.clone();
             let root2 = root.clone();
+            let outside = outside.clone();
             let (fin, trace, panics) = run(async move {
                 let root = root2;
                 let mut emmyrc = emmylua_code_analysis::Emmyrc::default();
@@ -149,7 +178,7 @@ fn main() {
                             next += 1;
                             let kind = m["kind"].as_str().unwrap();
                             let u = m["uri"].as_str().unwrap_or("none");
-                            let uri = uri_of(&root.join(format!("{u}.lua")));
+                            let uri = uri_of(&doc_path(root.as_ref(), u.as_ref(), outside.as_ref()));
                             let t = m["text"].as_str().unwrap_or("none");
                             let (mm, p) = match kind {
                                 "open" => did_open(&uri, &text_of(t), 1),
@@ -158,7 +187,10 @@ fn main() {
                                 "save" => did_save(&uri),
                                 "watch" => did_change_watched(&[(uri.clone(), 2)]),
                                 "wdel" => did_change_watched(&[(uri.clone(), 3)]),
-                                "cfg" => did_change_watched(&[(uri_of(&root.join(".emmyrc.json")), 2)]),
+                                "cfg" => {
+                                    write_config(&root, reindex, lib);
+                                    did_change_watched(&[(uri_of(&root.join(".emmyrc.json")), 2)])
+                                }
                                 k => panic!("kind {k}"),
                             };
                             s.notify(&mm, p).await;
@@ -188,7 +220,7 @@ fn main() {
                 for _ in 0..8 {
                     s.advance_ms(1000).await;
                 }
-                (observe(&s, &root, &uris2), trace, take_panics())
+                (observe(&s, &root, &uris2, &outside), trace, take_panics())
             });
             println!(
                 "{}",
